@@ -1194,7 +1194,6 @@ func phiLeaves(v ssa.Value) []ssa.Value {
 	return out
 }
 
-
 // allowedVia: who-may-call / who-may-write tables name the functions that may do something. A behaviour-preserving
 // extract-method moves the access into a new unexported helper; that helper is as allowed as its callers are: fn is
 // allowed if it is in the table, or if it is unexported, has at least one call site, and every call site lies in a
@@ -1244,7 +1243,6 @@ func allowedViaDepth(c *Ctx, allowed map[*ssa.Function]string, fn *ssa.Function,
 	return "helper called only from allowed functions (" + via + ")", true
 }
 
-
 // equivValue: a and b are computed by the same expression over the same roots (two loads of namespace.Users[i], written
 // twice in the source, are two SSA values). Stores between the two evaluations are not considered: use only where the
 // function does not write the structure the expression reads.
@@ -1275,7 +1273,6 @@ func equivValue(a, b ssa.Value, depth int) bool {
 	}
 	return false
 }
-
 
 // leavesThroughCalls is phiLeaves that also looks through results of module functions: a leaf that is result #i of a
 // static call to a function with a body is replaced by the leaves of that function's returned values (depth-bounded);
@@ -1329,7 +1326,6 @@ func leavesThroughCalls(c *Ctx, v ssa.Value, depth int) []ssa.Value {
 	return out
 }
 
-
 // eqConstEdges returns the If edges on which `x == k` is known to hold for a value x accepted by isX: the true edge of
 // `x == k` and the false edge of `x != k` (operands in either order).
 func eqConstEdges(fn *ssa.Function, isX func(v ssa.Value) bool, k int64) []CondEdge {
@@ -1353,5 +1349,46 @@ func eqConstEdges(fn *ssa.Function, isX func(v ssa.Value) bool, k int64) []CondE
 			}
 		}
 	})
+	return out
+}
+
+// hofResultLeaves: for a call h(..., func literal, ...) of a package-private module function whose single result can
+// be the result of calling that parameter, the phi leaves of the literal's own results (what the helper hands back).
+func hofResultLeaves(c *Ctx, call *ssa.Call) []ssa.Value {
+	h := staticCallee(&call.Call)
+	if h == nil || !c.InModule(h) || len(h.Blocks) == 0 || h.Object() == nil || h.Object().Exported() || h.Signature.Results().Len() != 1 {
+		return nil
+	}
+	var out []ssa.Value
+	for k, a := range call.Call.Args {
+		mc, ok := stripValue(a).(*ssa.MakeClosure)
+		if !ok || k >= len(h.Params) {
+			continue
+		}
+		lit, _ := mc.Fn.(*ssa.Function)
+		if lit == nil || lit.Signature.Results().Len() != 1 {
+			continue
+		}
+		handsBack := false
+		for _, ret := range returnsOf(h) {
+			vals, _ := retValues(ret, 0)
+			for _, v := range vals {
+				for _, l := range phiLeaves(v) {
+					if cv, ok := l.(*ssa.Call); ok && !cv.Call.IsInvoke() && stripValue(cv.Call.Value) == ssa.Value(h.Params[k]) {
+						handsBack = true
+					}
+				}
+			}
+		}
+		if !handsBack {
+			continue
+		}
+		for _, ret := range returnsOf(lit) {
+			vals, _ := retValues(ret, 0)
+			for _, v := range vals {
+				out = append(out, phiLeaves(v)...)
+			}
+		}
+	}
 	return out
 }
